@@ -39,12 +39,15 @@ def rel(path):
     return path
 
 
+LIB_EXTRA = []  # control mode: files treated as library code (drivers/controls.cpp)
+
+
 def in_lib(path):
-    return bool(path) and path.startswith(LIB)
+    return bool(path) and (path.startswith(LIB) or any(path.startswith(x) for x in LIB_EXTRA))
 
 
 def in_repo(path):
-    return bool(path) and path.startswith(REPO + "/")
+    return bool(path) and (path.startswith(REPO + "/") or any(path.startswith(x) for x in LIB_EXTRA))
 
 
 def in_drivers(path):
